@@ -64,13 +64,27 @@ class _Replay:
         return out
 
 
-def run_signonetime(ch_seed, images, paths, leftovers=None):
+def run_signonetime(ch_seed, images, paths, leftovers=None, trouble=None):
+    """trouble: None or (image index, kind) - kind 'missing' (the image is not there), 'read-eio' /
+    'read-eperm' (opening it fails), 'sig-enospc' / 'sig-eperm' (its signature file cannot be written)"""
     ch = Choices(seed=ch_seed)
     log, clock = EventLog(), Clock()
     dev = LedgerDevice(ch, clock, log)
     w = AdminWorld(ch, dev)
-    for p, content in zip(paths, images):
+    for i, (p, content) in enumerate(zip(paths, images)):
+        if trouble is not None and trouble == (i, "missing"):
+            continue
         w.fs.put(p, content)
+    if trouble is not None and trouble[1] != "missing":
+        ti, tk = trouble
+
+        def ffn(op, path, idx):
+            if tk.startswith("read-") and op == "open-r" and path == paths[ti]:
+                return tk[5:]
+            if tk.startswith("sig-") and op == "open-w" and path == paths[ti] + ".sig":
+                return tk[4:]
+            return None
+        w.fs.fault_fn = ffn
     # the tool may be run again in a directory that still holds what an earlier run wrote
     for p, content in sorted((leftovers or {}).items()):
         w.fs.put(p, content)
@@ -151,10 +165,19 @@ def run_one(ch, cfg):
     left = None
     if ch.draw(2, "second-run-in-same-directory") == 1:
         left = {p: d for p, d in first[0].fs.files.items() if p.endswith(".sig") or p.endswith(".pub")}
-    runs = [first, run_signonetime(s2, images, paths, leftovers=left)]
+    # one image in trouble (one run in five): the tool must not claim success for that run
+    trouble = None
+    if ch.draw(5, "image-in-trouble") == 1:
+        trouble = (ch.draw(nimg, "trouble.image"),
+                   ch.pick(["missing", "read-eio", "read-eperm", "sig-enospc", "sig-eperm"], "trouble.kind"))
+    runs = [first, run_signonetime(s2, images, paths, leftovers=left, trouble=trouble)]
     pubs = []
     for ri, (w, st, out, written, before) in enumerate(runs):
         tag = "signonetime run %d" % ri
+        if ri == 1 and trouble is not None:
+            tag += " (image %d %s)" % trouble
+            if st != 0:
+                continue          # refusing is the right answer; a claimed success is judged below
         if st != 0:
             viol.append(("sign/failed", "%s exit %s: %s" % (tag, st, out[-200:])))
             continue
